@@ -21,6 +21,24 @@ CHECKS = {
         "technique": "TLA+ functional specification evaluated exhaustively by TLC; spec-generated vectors replayed into "
                      "the three implementations",
     },
+    "C13": {
+        "bins": ["commitlog"],
+        "category": "model_checking",
+        "text": "CommitLog.tla transcribes CommitLog::append/apply_retention/readv and Segment::readv (with their panic "
+                "sites) and states the property-level meaning of a read (AbsOut/ReadOk). TLC explores every append "
+                "sequence up to 6 (quick) / 8 (thorough) appends of entries smaller than, half of and larger than a "
+                "segment for segment limits 1..3 and checks in every state, for every cursor the log has issued so far "
+                "(tails, entry offsets, continuations; fresh and stale) and every length in {0,1,2,3,7}: exact retained "
+                "suffix, exact continuation, caught-up flag, plus no panic for fabricated cursors and whole-oldest-segment "
+                "retention. Every TLC state is replayed into the real CommitLog with result equality (spec->impl); states "
+                "where the code differs from the model, and seeded random traces at realistic sizes, are decided by TLC "
+                "trace validation against the property-level CommitLogTrace.tla (impl->spec).",
+        "design_ref": "DESIGN.md section 6 / C13",
+        "note": "Trusted: CommitLog.tla as transcription (bound by equality replay on every explored state), TLC, the harness "
+                "binary. Exhaustive only within the stated constants; larger logs are sampled by validated traces.",
+        "technique": "TLC model checking of a TLA+ transcription + exhaustive spec->impl replay + TLC trace validation of "
+                     "recorded executions",
+    },
 }
 
 NOT_YET = {}
